@@ -83,6 +83,9 @@ pub enum Perturb {
     DropPred(u32),
     DupPred(u32),
     ExtraEdge(u16),
+    /// Set one node's edge_start to a value that decoders / encoders may treat specially: 0, the number of edges
+    /// (+-1), the leaf marker (-1).
+    EdgeStartTo(u32, u16, u8),
 }
 
 #[derive(Clone, Debug, Hash, Serialize, Deserialize)]
@@ -132,6 +135,23 @@ pub fn perturb_contract(c: &ContractM, p: &Perturb) -> Option<ContractM> {
             }
             let ni = *v as usize % pr.nodes.len();
             pr.nodes[ni].0 = pr.nodes[ni].0.wrapping_add(1 + (*v >> 8));
+        }
+        Perturb::EdgeStartTo(pi, v, which) => {
+            if c.preds.is_empty() {
+                return None;
+            }
+            let i = gen::pick_ix(*pi, c.preds.len());
+            let pr = &mut out.preds[i];
+            if pr.nodes.is_empty() {
+                return None;
+            }
+            let ni = *v as usize % pr.nodes.len();
+            let n = pr.edges.len() as u16;
+            let to = [0, n, n.wrapping_sub(1), n.wrapping_add(1), u16::MAX, u16::MAX - 1][*which as usize % 6];
+            if pr.nodes[ni].0 == to {
+                return None;
+            }
+            pr.nodes[ni].0 = to;
         }
         Perturb::Edge(pi, v) => {
             if c.preds.is_empty() {
@@ -233,6 +253,7 @@ fn contract_case() -> impl Strategy<Value = ContractCase> {
         1 => Just(Perturb::None),
         4 => (any::<u32>(), any::<u8>(), any::<u8>()).prop_map(|(a, b, c)| Perturb::NodeByte(a, b, c)),
         2 => (any::<u32>(), any::<u16>()).prop_map(|(a, b)| Perturb::EdgeStart(a, b)),
+        2 => (any::<u32>(), any::<u16>(), any::<u8>()).prop_map(|(a, b, c)| Perturb::EdgeStartTo(a, b, c)),
         2 => (any::<u32>(), any::<u16>()).prop_map(|(a, b)| Perturb::Edge(a, b)),
         2 => any::<u8>().prop_map(Perturb::SaltBit),
         1 => any::<u32>().prop_map(Perturb::DropPred),
